@@ -626,7 +626,15 @@ def parse_equation(equation: str) -> List[Symbol]:
     try:
         standardised = template.format(*[str(t) for t in terms])
         code = template.format(*[t.code for t in terms])
-    except (AttributeError, IndexError, KeyError, TypeError, ValueError) as e:
+    except (
+        AttributeError,
+        IndexError,
+        KeyError,
+        MemoryError,
+        OverflowError,
+        TypeError,
+        ValueError,
+    ) as e:
         # Stray or malformed braces (outside `{parameter}` terms) break the
         # templating above: report them as a parsing error
         raise ParserError(
